@@ -18,8 +18,8 @@ EXPLANATION = (
 RULE_TEXT = 'three obligations (present / raises / dominates, plus scans for loop guards) per guard row; one per equality field'
 ASSUMPTIONS = ['decides guard presence, polarity, exception class and dominance on all paths; spelling independence follows from '
                'guards comparing resolved objects (C05), not decided for arbitrary documents']
-ENGINES = ['pyindex', 'paths', 'effects']
-TECHNIQUE = 'static analysis (ast): guard obligations by path enumeration with condition normal form; class-constant field-set check'
+ENGINES = ['pyindex', 'paths', 'effects', 'grammar']
+TECHNIQUE = 'static analysis (ast): guard obligations by path enumeration with condition normal form; class-constant field-set check; keyword vocabularies (also regular-expression ones) canonical and caseless'
 
 
 def run(ctx, col: Collector):
